@@ -134,6 +134,20 @@ def real_input_runs(res, scratch, tier):
                     got = [l.split("\t")[-1] for l in text.split("\n") if l]
                     res.fail("C11/real-run:differs-from-single-core", f"records {pat}, --cores {cores}, {batch} record(s) per worker: {o.brief()}; output order {got} differs from the single-core file",
                              {"real_inputs": pat, "cores": cores, "batch": batch})
+    # the real batch size (1000; no hook): files of 101, 152, 1003 and 2005 short records, 1-3 cores, against the single-core file
+    for nrec in (101, 152, 1003, 2005):
+        build("s" * nrec)
+        ref_o, ref = run(1, None)
+        for cores in (2, 3):
+            o, text = run(cores, None)
+            res.evaluations += 1
+            res.nt(fw.h64(["default-batch", nrec, cores]))
+            res.count("real_process_runs_with_the_default_batch_size")
+            if ref_o.kind != "ok" or o.kind != "ok" or text != ref or len([l for l in ref.split("\n") if l]) != nrec:
+                got = [l.split("\t")[0] for l in text.split("\n") if l]
+                first = next((i for i, (a, b) in enumerate(zip(got + [None] * nrec, [f"r{i}" for i in range(nrec)])) if a != b), None)
+                res.fail("C11/real-run:default-batch", f"{nrec} records, default batch size, --cores {cores}: {o.brief()}; {len(got)} records written, first difference from the input order at record {first}",
+                         {"real_inputs": "s" * nrec, "cores": cores, "batch": None})
     # many workers under a tight descriptor limit
     n = 400 if tier == "quick" else 1500
     build("s" * n)
